@@ -1,4 +1,6 @@
+mod conc;
 mod content;
+mod damage;
 mod dir;
 mod dump;
 mod manifest;
@@ -9,10 +11,191 @@ mod views;
 
 use std::io::Write;
 
+fn run_case(c: &util::Case, tmp: &std::path::Path) -> Vec<String> {
+    match c.family.as_str() {
+        "views" => views::run(c, tmp),
+        "manifest" => manifest::run(c, tmp),
+        "content" => content::run(c, tmp),
+        "dir" => dir::run(c, tmp),
+        "pkgs" => pkgs::run(c, tmp),
+        "damage" => damage::run(c, tmp),
+        "conc" => conc::run(c, tmp),
+        "dircheck" => {
+            // C09: what a destination directory holds after an interrupted or failed creation
+            let dir = std::path::PathBuf::from(c.p("dir"));
+            let main = dir.join(c.p("main"));
+            let mut out = vec![];
+            if !main.exists() {
+                out.push(format!("{} main ABSENT", c.id));
+            } else {
+                let ls = dump::dump_container(&main, &["idx"], true);
+                let open = ls.first().cloned().unwrap_or_default();
+                let check = ls.iter().find(|l| l.starts_with("check ")).cloned().unwrap_or("check NONE".into());
+                let errs = ls.iter().filter(|l| l.contains("ERR_") || l.contains("PANIC") || l.contains("MISSING")).count();
+                let entries = ls.iter().filter(|l| l.starts_with("entry ")).count();
+                out.push(format!("{} main {} {} errors={} entries={}", c.id, open.replace(' ', "_"), check.replace(' ', "_"), errs, entries));
+            }
+            for l in &c.lines {
+                if l[0] == "pack" {
+                    let p = dir.join(&l[1]);
+                    if !p.exists() {
+                        out.push(format!("{} pack {} ABSENT", c.id, l[1]));
+                        continue;
+                    }
+                    let r = std::panic::catch_unwind(|| match jubako::tools::open_pack(&p) {
+                        Err(e) => format!("open_{}", util::err_class(&e)),
+                        Ok(cp) => match cp.check() {
+                            Ok(b) => format!("check_{}", b),
+                            Err(e) => format!("check_{}", util::err_class(&e)),
+                        },
+                    });
+                    out.push(format!("{} pack {} {}", c.id, l[1], r.unwrap_or_else(|_| "PANIC".into())));
+                }
+            }
+            out
+        }
+        "hash" => {
+            // C04: blake3 (the crate the library uses) over a byte range of a file, with the given
+            // absolute sub-ranges zeroed (the manifest's masked view); the range comes from the model
+            let b = std::fs::read(c.p("file")).unwrap();
+            let (start, len) = (c.pu("start") as usize, c.pu("len") as usize);
+            let mut v = b[start..start + len].to_vec();
+            if let Some(z) = c.params.get("zero") {
+                for r in z.split(',').filter(|r| !r.is_empty()) {
+                    let (a, e) = r.split_once('-').unwrap();
+                    let (a, e): (usize, usize) = (a.parse().unwrap(), e.parse().unwrap());
+                    for i in a.max(start)..e.min(start + len) {
+                        v[i - start] = 0;
+                    }
+                }
+            }
+            vec![format!("{} blake3 {}", c.id, blake3::hash(&v).to_hex())]
+        }
+        "corpus" => {
+            // read a committed reference container (or a damaged copy) with the current reader
+            let dir = std::path::PathBuf::from(c.p("dir"));
+            let main = dir.join(c.p("main"));
+            let idx: Vec<&str> = c.p("indexes").split(',').collect();
+            let mut out = vec![format!("{} @model main {}", c.id, main.display())];
+            for e in std::fs::read_dir(&dir).unwrap() {
+                let e = e.unwrap();
+                if e.path().is_file() && e.path() != main {
+                    out.push(format!("{} @model sibling {} {}", c.id, e.file_name().to_str().unwrap(), e.path().display()));
+                }
+            }
+            for l in dump::dump_container(&main, &idx, true) {
+                out.push(format!("{} {}", c.id, l));
+            }
+            out
+        }
+        f => panic!("unknown family {f}"),
+    }
+}
+
+/// `jbkv --isolate <casefile> <outfile> <tmpdir> <timeout_ms>`: every case runs in its own child process so
+/// that a panic, an abort, a fault or a hang of the library is an observation, not the end of the batch.
+fn isolate(args: &[String]) {
+    let text = std::fs::read_to_string(&args[2]).expect("case file");
+    let tmp = std::path::PathBuf::from(&args[4]);
+    std::fs::create_dir_all(&tmp).unwrap();
+    let timeout = std::time::Duration::from_millis(args[5].parse().unwrap());
+    let exe = std::env::current_exe().unwrap();
+    let mut out = std::io::BufWriter::new(std::fs::File::create(&args[3]).unwrap());
+    // split the case file into one-case chunks
+    let mut chunks: Vec<(String, String)> = vec![];
+    let mut cur = String::new();
+    let mut id = String::new();
+    for line in text.lines() {
+        if line.starts_with("case ") {
+            cur.clear();
+            id = line.split(' ').nth(1).unwrap().to_string();
+        }
+        cur.push_str(line);
+        cur.push('\n');
+        if line.trim() == "end" {
+            chunks.push((id.clone(), cur.clone()));
+        }
+    }
+    let jobs = std::thread::available_parallelism().map(|n| n.get()).unwrap_or(4).min(12);
+    let chunks = std::sync::Arc::new(chunks);
+    let next = std::sync::Arc::new(std::sync::atomic::AtomicUsize::new(0));
+    let results = std::sync::Arc::new(std::sync::Mutex::new(vec![String::new(); chunks.len()]));
+    let mut handles = vec![];
+    for j in 0..jobs {
+        let (chunks, next, results, exe, tmp) = (chunks.clone(), next.clone(), results.clone(), exe.clone(), tmp.clone());
+        handles.push(std::thread::spawn(move || loop {
+            let k = next.fetch_add(1, std::sync::atomic::Ordering::SeqCst);
+            if k >= chunks.len() {
+                break;
+            }
+            let (id, text) = &chunks[k];
+            let cf = tmp.join(format!("one_{}_{}.case", j, k));
+            let of = tmp.join(format!("one_{}_{}.out", j, k));
+            std::fs::write(&cf, text).unwrap();
+            let _ = std::fs::remove_file(&of);
+            let mut child = std::process::Command::new(&exe)
+                .arg(&cf)
+                .arg(&of)
+                .arg(&tmp)
+                .stdout(std::process::Stdio::null())
+                .stderr(std::process::Stdio::null())
+                .spawn()
+                .unwrap();
+            let t0 = std::time::Instant::now();
+            let status = loop {
+                match child.try_wait().unwrap() {
+                    Some(st) => break Some(st),
+                    None => {
+                        if t0.elapsed() > timeout {
+                            let _ = child.kill();
+                            let _ = child.wait();
+                            break None;
+                        }
+                        std::thread::sleep(std::time::Duration::from_millis(2));
+                    }
+                }
+            };
+            let mut text_out = std::fs::read_to_string(&of).unwrap_or_default();
+            use std::os::unix::process::ExitStatusExt;
+            match status {
+                None => text_out.push_str(&format!("{} outcome TIMEOUT\n", id)),
+                Some(st) if st.success() => text_out.push_str(&format!("{} outcome EXIT0\n", id)),
+                Some(st) => match st.signal() {
+                    Some(sig) => text_out.push_str(&format!("{} outcome SIGNAL{}\n", id, sig)),
+                    None => text_out.push_str(&format!("{} outcome EXIT{}\n", id, st.code().unwrap_or(-1))),
+                },
+            }
+            let _ = std::fs::remove_file(&cf);
+            let _ = std::fs::remove_file(&of);
+            results.lock().unwrap()[k] = text_out;
+        }));
+    }
+    for h in handles {
+        h.join().unwrap();
+    }
+    for t in results.lock().unwrap().iter() {
+        out.write_all(t.as_bytes()).unwrap();
+    }
+}
+
 fn main() {
     let args: Vec<String> = std::env::args().collect();
+    if args.len() >= 8 && args[1] == "--create" {
+        // C09: one creation through the high-level creator, as a process that can be killed or made to fail
+        let r = mkcont::std_container(&args[2], &args[3], &args[4], args[5].parse().unwrap(), args[6].parse().unwrap(), args[7].parse().unwrap());
+        match r {
+            Ok(_) => std::process::exit(0),
+            Err(e) => {
+                eprintln!("creation failed: {e}");
+                std::process::exit(3)
+            }
+        }
+    }
+    if args.len() >= 6 && args[1] == "--isolate" {
+        return isolate(&args);
+    }
     if args.len() < 3 {
-        eprintln!("usage: jbkv <casefile> <outfile> [tmpdir]");
+        eprintln!("usage: jbkv <casefile> <outfile> [tmpdir] | jbkv --isolate <casefile> <outfile> <tmpdir> <timeout_ms>");
         std::process::exit(2);
     }
     let text = std::fs::read_to_string(&args[1]).expect("case file");
@@ -25,34 +208,12 @@ fn main() {
     let (_seed, cases) = util::parse_cases(&text);
     let mut out = std::io::BufWriter::new(std::fs::File::create(&args[2]).unwrap());
     // silence panic messages of caught panics; they are reported as observation lines
-    std::panic::set_hook(Box::new(|_| {}));
+    if std::env::var("JBKV_DEBUG").is_err() {
+        std::panic::set_hook(Box::new(|_| {}));
+    }
     for c in &cases {
         let id = c.id.clone();
-        let r = std::panic::catch_unwind(std::panic::AssertUnwindSafe(|| match c.family.as_str() {
-            "views" => views::run(c, &tmp),
-            "manifest" => manifest::run(c, &tmp),
-            "content" => content::run(c, &tmp),
-            "dir" => dir::run(c, &tmp),
-            "pkgs" => pkgs::run(c, &tmp),
-            "corpus" => {
-                // read a committed reference container with the current reader
-                let dir = std::path::PathBuf::from(c.p("dir"));
-                let main = dir.join(c.p("main"));
-                let idx: Vec<&str> = c.p("indexes").split(',').collect();
-                let mut out = vec![format!("{} @model main {}", c.id, main.display())];
-                for e in std::fs::read_dir(&dir).unwrap() {
-                    let e = e.unwrap();
-                    if e.path().is_file() && e.path() != main {
-                        out.push(format!("{} @model sibling {} {}", c.id, e.file_name().to_str().unwrap(), e.path().display()));
-                    }
-                }
-                for l in dump::dump_container(&main, &idx, true) {
-                    out.push(format!("{} {}", c.id, l));
-                }
-                out
-            }
-            f => panic!("unknown family {f}"),
-        }));
+        let r = std::panic::catch_unwind(std::panic::AssertUnwindSafe(|| run_case(c, &tmp)));
         match r {
             Ok(lines) => {
                 for l in lines {
